@@ -70,6 +70,7 @@ theorem rect_step (s : Heap) (op : Op) (hs : HeapRect s) : HeapRect (step s op).
   | col h k => simp only [step]; split <;> simp [Heap.query_fst, hs]
   | iter h => simp only [step]; split <;> simp [Heap.query_fst, hs]
   | tup h ks => simp only [step]; split <;> simp [Heap.query_fst, hs]
+  | apply h f => simp only [step]; split <;> simp [Heap.query_fst, hs]
   | slice dst h a b st =>
     simp only [step]
     split
@@ -220,6 +221,7 @@ theorem nodup_step (s : Heap) (op : Op) (hs : HeapNodup s) : HeapNodup (step s o
   | col h k => simp only [step]; split <;> simp [Heap.query_fst, hs]
   | iter h => simp only [step]; split <;> simp [Heap.query_fst, hs]
   | tup h ks => simp only [step]; split <;> simp [Heap.query_fst, hs]
+  | apply h f => simp only [step]; split <;> simp [Heap.query_fst, hs]
   | slice dst h a b st =>
     simp only [step]
     split
